@@ -125,6 +125,9 @@ func (s *Session) op(kind int, key *fkey) error {
 	if kind == OpRollback {
 		return nil
 	}
+	if s.Visible != nil && !s.Visible(kind) {
+		return nil // race mode: BEGIN / PREPARE are neither journalled nor counted
+	}
 	n := s.NOps
 	s.NOps++
 	if n == s.Fault {
